@@ -61,42 +61,35 @@ end QM.Text
 namespace QM.Frag
 open QM.Text QM.Parse
 
-/-- The fragment: `Term::Access` of a bare identifier, and anonymous `Term::Tuple`s whose fields are
-    unnamed one-term chains of the fragment. -/
+mutual
+/-- The fragment: `Term::Access` of a bare identifier, and `Term::Tuple`s — anonymous `[…]`, named
+    `A[…]`, or the bare tuple name `A` (no fields) — whose fields are one-term chains of the fragment,
+    unnamed or named (`x: t`). -/
 inductive T where
   | leaf (name : Str)
-  | tup (fields : List T)
-  deriving Repr, Inhabited
-
-mutual
-def T.beq : T → T → Bool
-  | .leaf a, .leaf b => a == b
-  | .tup a, .tup b => T.beqList a b
-  | _, _ => false
-def T.beqList : List T → List T → Bool
-  | [], [] => true
-  | a :: as, b :: bs => T.beq a b && T.beqList as bs
-  | _, _ => false
+  | tup (name : Option Str) (fields : List F)
+inductive F where
+  | mk (label : Option Str) (value : T)
 end
 
-mutual
-/-- nesting depth (the fuel the parser needs) -/
-def T.depth : T → Nat
-  | .leaf _ => 0
-  | .tup fs => T.depthList fs + 1
-def T.depthList : List T → Nat
-  | [] => 0
-  | f :: fs => max (T.depth f) (T.depthList fs)
-end
+instance : Inhabited T := ⟨.leaf []⟩
+instance : Inhabited F := ⟨.mk none default⟩
+
+/-- an optional name is in the language of the given lexical class -/
+def optOk (ok : Str → Bool) : Option Str → Prop
+  | none => True
+  | some n => ok n = true
 
 mutual
-/-- every leaf is an `identifier` of the language -/
+/-- every leaf and field label is an `identifier`, every tuple name a `tuple_name` of the language -/
 def T.WF : T → Prop
   | .leaf n => isIdentStr n = true
-  | .tup fs => T.WFList fs
-def T.WFList : List T → Prop
+  | .tup name fs => optOk isTupleNameStr name ∧ F.WFList fs
+def F.WF : F → Prop
+  | .mk l t => optOk isIdentStr l ∧ T.WF t
+def F.WFList : List F → Prop
   | [] => True
-  | f :: fs => T.WF f ∧ T.WFList fs
+  | f :: fs => F.WF f ∧ F.WFList fs
 end
 
 /-! ### AST → Doc (format.rs) -/
@@ -110,22 +103,34 @@ def pageWidth : Nat := 100
 def chainDoc (term : Doc) : Doc :=
   .concat [.nil, Doc.mkGroup (breakIfWiderThan (.concat [term]) chainSoftWidth)]
 
-/-- `field_doc` of an unnamed chain field without trivia -/
-def fieldDoc (term : Doc) : Doc := .concat [.nil, chainDoc term, .nil]
+/-- `field_doc` without trivia around the field's value doc -/
+def fieldDoc (value : Doc) : Doc := .concat [.nil, value, .nil]
+
+/-- the text in front of the fields: the tuple name (if any) and `[` -/
+def openText (name : Option Str) : Str := name.getD [] ++ ['[']
+
+/-- a tuple without fields: `[]`, or the bare name -/
+def emptyText : Option Str → Str
+  | none => ['[', ']']
+  | some n => n
 
 mutual
-/-- `term_doc` -/
+/-- `term_doc` (`render_access` of a bare identifier; `tuple_doc`) -/
 def termDoc : T → Doc
   | .leaf n => .text n
-  | .tup fs => if fs.isEmpty then .text ['[', ']'] else bracketed ['['] (fieldDocs fs)
-def fieldDocs : List T → List Doc
+  | .tup name fs => if fs.isEmpty then .text (emptyText name) else bracketed (openText name) (fieldDocs fs)
+/-- `field_doc`: `chain_doc`, behind `name: ` for a named field -/
+def fieldDocOf : F → Doc
+  | .mk none t => fieldDoc (chainDoc (termDoc t))
+  | .mk (some l) t => fieldDoc (.concat [.text (l ++ [':', ' ']), chainDoc (termDoc t)])
+def fieldDocs : List F → List Doc
   | [] => []
-  | f :: fs => fieldDoc (termDoc f) :: fieldDocs fs
+  | f :: fs => fieldDocOf f :: fieldDocs fs
 end
 
 /-- `sequence_doc_with` of a one-step sequence without trivia -/
 def sequenceDoc (t : T) : Doc :=
-  Doc.mkGroup (.concat [.concat [.nil, chainDoc (termDoc t), .nil], .nest 0 (.concat [])])
+  Doc.mkGroup (.concat [fieldDoc (chainDoc (termDoc t)), .nest 0 (.concat [])])
 
 /-- the `Doc` of `format_program` for the one-statement program `t` -/
 def programDoc (t : T) : Doc := .concat [sequenceDoc t]
@@ -139,22 +144,34 @@ def fmtFrag (t : T) : List Char :=
 
 /-! ### text → AST (parser.rs) -/
 
-/-- `tuple_term`, anonymous alternative:
-    `delimited(pair(char('['), wsc), tuple_field_list, pair(wsc, char(']')))` with
+/-- `tuple_field`: `separated_pair(identifier, (char(':'), ws1), chain)` for a named field, else the
+    chain (the two spread alternatives in between fail at the first character on fragment texts). -/
+def fieldP (term : P T) : P F :=
+  alt
+    (bind identifier fun n => seq (pchar ':') (seq ws1 (pmap term (F.mk (some n)))))
+    (pmap term (F.mk none))
+
+/-- `delimited(pair(char('['), wsc), tuple_field_list, pair(wsc, char(']')))` with
     `tuple_field_list = terminated(separated_list0(tuple((wsc, char(','), wsc)), tuple_field),
     opt(pair(wsc, char(','))))` -/
-def tupleP (field : P T) : P T :=
-  pmap
-    (delimited (seq (pchar '[') wsc)
-      (before (sepList0 commaWsc field) (opt (seq wsc (pchar ','))))
-      (seq wsc (pchar ']')))
-    T.tup
+def bracketsP (field : P F) : P (List F) :=
+  delimited (seq (pchar '[') wsc)
+    (before (sepList0 commaWsc field) (opt (seq wsc (pchar ','))))
+    (seq wsc (pchar ']'))
 
-/-- `term` restricted to the fragment; the recursion through `tuple_field` → `chain` → `term` is tied
-    by fuel as in Core/Parse/Type (`Res.out` = fuel exhausted). -/
+/-- `tuple_term`: `Name[…]`, `[…]`, or a bare `Name` not followed by `(` (which would make it a
+    partial pattern/type). -/
+def tupleP (field : P F) : P T :=
+  alt (bind tupleName fun n => pmap (bracketsP field) (T.tup (some n)))
+    (alt (pmap (bracketsP field) (T.tup none))
+      (bind tupleName fun n => pmap (peekNot (seq ws0 (pchar '('))) (fun _ => T.tup (some n) [])))
+
+/-- `primary` restricted to the fragment (tuple | access of a bare identifier); the recursion through
+    `tuple_field` → `chain` → `primary` is tied by fuel as in Core/Parse/Type (`Res.out` = fuel
+    exhausted). -/
 def termP : Nat → P T
   | 0 => fun _ => .out
-  | n + 1 => alt (tupleP (termP n)) (pmap identifier T.leaf)
+  | n + 1 => alt (tupleP (fieldP (termP n))) (pmap identifier T.leaf)
 
 /-- `eof` -/
 def peof : P Unit := fun i =>
